@@ -217,7 +217,9 @@ def m_stmt(pat, s, may):
             and pat["field"] == s.field
         ):
             return False
-        return m_expr(pat["rhs"], s.rhs, may) or may
+        # "Cfg.a = 5" denotes a write of 5: the right-hand side is part of the structure
+        # (documented for assignments: "a = 3.0" or "a = _")
+        return m_expr(pat["rhs"], s.rhs, may)
     raise ValueError(f"bad statement pattern {k}")
 
 
